@@ -647,10 +647,14 @@ fn merge_so_instance_type(
 
         // If each has a single type, it must match.
         (Some(SingleOrVec::Single(aa)), Some(SingleOrVec::Single(bb))) => {
-            if aa == bb {
-                Ok(Some(SingleOrVec::Single(aa.clone())))
-            } else {
-                Err(())
+            match (aa.as_ref(), bb.as_ref()) {
+                (aaa, bbb) if aaa == bbb => Ok(Some(SingleOrVec::Single(aa.clone()))),
+                // Every integer is a number.
+                (InstanceType::Integer, InstanceType::Number)
+                | (InstanceType::Number, InstanceType::Integer) => {
+                    Ok(Some(SingleOrVec::Single(Box::new(InstanceType::Integer))))
+                }
+                _ => Err(()),
             }
         }
 
